@@ -1,4 +1,5 @@
 pub mod c01;
+pub mod c02;
 pub mod c06;
 pub mod c10;
 pub mod c14;
@@ -10,6 +11,7 @@ use crate::run::RunCtx;
 pub fn dispatch(prop: &str, rc: &mut RunCtx) -> bool {
     match prop {
         "C01" => c01::run(rc),
+        "C02" => c02::run(rc),
         "C06" => c06::run(rc),
         "C10" => c10::run(rc),
         "C14" => c14::run(rc),
